@@ -131,6 +131,44 @@ impl Oracle {
     }
 
     /// (key, what, expected, observed) for every way this response contradicts the property.
+    /// Would the head of this request pass the authorisation right now? (`None`: undetermined.)
+    pub fn allowed(&self, r: &Req, w: &World) -> Option<bool> {
+        if r.verb != "POST" || !matches!(r.target, Target::Root | Target::Db { .. }) {
+            return Some(true);
+        }
+        let token = self.real_token(r, w);
+        let admin_ok = match &self.cfg.admin {
+            None => true,
+            Some(a) => token.as_deref() == Some(a.as_str()),
+        };
+        if admin_ok {
+            return Some(true);
+        }
+        if let Target::Db { name, .. } = &r.target {
+            if let Some(vals) = self.maybe.get(name)
+                && (vals.contains(&token) || self.bound.get(name) == token.as_ref())
+            {
+                return None;
+            }
+            return Some(token.is_some() && self.bound.get(name) == token.as_ref());
+        }
+        Some(false)
+    }
+
+    /// A request whose head was rejected (the route layer answered before any body) stays rejected.
+    pub fn check_rejected_head(&self, resp: &ImplResp) -> Vec<(String, String, String, String)> {
+        let mut out = Vec::new();
+        if resp.status != 401 || !resp.writes.is_empty() || !resp.reads.is_empty() {
+            out.push((
+                "inflight:rejected-head-served".to_string(),
+                "a request whose head carried no valid key was served after its body arrived".to_string(),
+                "401 and no storage access".to_string(),
+                format!("status {} writes {} reads {}", resp.status, resp.writes.len(), resp.reads.len()),
+            ));
+        }
+        out
+    }
+
     pub fn check(&self, r: &Req, resp: &ImplResp, w: &World) -> Vec<(String, String, String, String)> {
         let mut out = Vec::new();
         let mut fail = |key: &str, what: &str, exp: String, obs: String| out.push((key.to_string(), what.to_string(), exp, obs));
